@@ -100,6 +100,9 @@ pub struct Decl {
     pub roots: Vec<RootM>,
     pub grouped: bool,
     pub root_lt: bool,
+    /// generated for a build without the help feature: `-h` / `--help` / `help` are ordinary names there
+    #[serde(default)]
+    pub help_names: bool,
 }
 
 impl Decl {
@@ -283,6 +286,12 @@ impl Gen<'_> {
                 name = "help".to_string();
                 explicit = true;
             }
+            // a *nested* sub-command may be called `help` in any build: only a line that starts with `help` is the
+            // library's business (`modem help` is an ordinary command, and `modem --help` must list it)
+            if !self.help_names && depth >= 1 && self.r.chance(10) && !used_name.contains(&"help".to_string()) {
+                name = "help".to_string();
+                explicit = true;
+            }
             used_ident.push(ident.clone());
             used_name.push(name.clone());
             if depth == 0 {
@@ -317,6 +326,7 @@ impl Gen<'_> {
                 let mut shorts: Vec<char> = if self.help_names { vec![] } else { vec!['h'] };
                 let mut longs: Vec<String> = if self.help_names { vec![] } else { vec!["help".to_string()] };
                 let mut vnames: Vec<String> = Vec::new();
+                let mut used_h = false;
                 for _ in 0..nf {
                     let k = self.r.range(1, 2);
                     let ws = self.words(k);
@@ -348,6 +358,7 @@ impl Gen<'_> {
                         let mut l: Option<String> = None;
                         let mut sg = false;
                         let mut lg = false;
+                        let mut shadow_h = false;
                         if c < 60 {
                             if self.r.chance(70) {
                                 s = fname.chars().next();
@@ -359,7 +370,15 @@ impl Gen<'_> {
                                 s = Some('h');
                                 sg = false;
                             }
-                            if shorts.contains(&s.unwrap()) {
+                            // with help on, `-h` always asks for help, but an option may still carry the short name h next
+                            // to a long one (`-h, --host <HOST>`): it is given by its long name and listed with both
+                            if !self.help_names && c > 30 && self.r.chance(8) && !used_h {
+                                used_h = true;
+                                s = Some('h');
+                                sg = false;
+                                shadow_h = true;
+                            }
+                            if !shadow_h && shorts.contains(&s.unwrap()) {
                                 s = None;
                                 sg = false;
                             }
@@ -379,6 +398,9 @@ impl Gen<'_> {
                                 l = None;
                                 lg = false;
                             }
+                        }
+                        if shadow_h && l.is_none() {
+                            s = None;
                         }
                         if s.is_some() || l.is_some() {
                             f.kind = if ty == "bool" { Kind::Flag } else { Kind::Opt };
@@ -539,6 +561,7 @@ pub fn generate_opts(id: usize, r: &mut R, help_names: bool) -> Decl {
         roots,
         grouped,
         root_lt,
+        help_names,
     }
 }
 
